@@ -56,7 +56,7 @@ ASSUMPTIONS = ["'well-formed' means the syntax shown in docs/reference/docstring
                "types are drawn from a pool of expressions whose str() is canonical; descriptions avoid section syntax of their own"]
 SHARD_TIMEOUT = {"quick": 900, "thorough": 7200}
 
-STRUCTURES = {"quick": 6000, "thorough": 100_000}    # per style
+STRUCTURES = {"quick": 18000, "thorough": 100_000}    # per style
 NSHARDS = 15
 STYLES = ("google", "numpy", "sphinx")
 
